@@ -68,6 +68,8 @@ func classifyTLS(b []byte, firstMustBeHandshake bool) error {
 	return nil
 }
 
+const c13RendezvousOID = "1.3.6.1.4.1.55555.13.1"
+
 func c13Exec(c c13Case, st *lab.Stats) *lab.Fail {
 	main, _, err := lab.SharedPKI()
 	if err != nil {
@@ -97,6 +99,34 @@ func c13Exec(c c13Case, st *lab.Stats) *lab.Fail {
 			}
 		}, gldap.WithBaseDN("dc=x"))
 	}
+	// "dispatched exactly as on a plain connection" includes concurrently: two searches pipelined inside the tunnel,
+	// the first handler waits until the second has been entered (4 s at most) and says so in its answer
+	var rvMu sync.Mutex
+	rv := map[int]chan struct{}{}
+	rvChan := func(si int) chan struct{} {
+		rvMu.Lock()
+		defer rvMu.Unlock()
+		if rv[si] == nil {
+			rv[si] = make(chan struct{})
+		}
+		return rv[si]
+	}
+	_ = mux.ExtendedOperation(func(w *gldap.ResponseWriter, r *gldap.Request) {
+		_, id, _ := gldap.VerifMessageInfo(r)
+		ch := rvChan(tagOf(id))
+		diag := "met"
+		switch id % tagStride {
+		case 480002:
+			close(ch)
+		case 480001:
+			select {
+			case <-ch:
+			case <-time.After(4 * time.Second):
+				diag = "waited-in-vain"
+			}
+		}
+		_ = w.Write(r.NewResponse(gldap.WithApplicationCode(respTagOfOp["extended"]), gldap.WithResponseCode(gldap.ResultSuccess), gldap.WithDiagnosticMessage(diag)))
+	}, gldap.ExtendedOperationName(c13RendezvousOID))
 	var mu sync.Mutex
 	handshakeErrs := map[int]error{}
 	_ = mux.ExtendedOperation(func(w *gldap.ResponseWriter, r *gldap.Request) {
@@ -341,6 +371,20 @@ func c13Session1(si int, s c13Session, srv *lab.Server, pki *lab.PKI, rc *record
 			}
 		}
 	}
+	if s.Concurrent {
+		q1, q2 := simpleReq("extended", base+480001), simpleReq("extended", base+480002)
+		q1.ExtName, q2.ExtName = []byte(c13RendezvousOID), []byte(c13RendezvousOID)
+		_ = cl.Send(append(q1.Bytes(), q2.Bytes()...))
+		for k := 0; k < 2; k++ {
+			m, err := cl.Next(15 * time.Second)
+			if err != nil {
+				return lab.Failf("tunnel-request-failed", "%s: rendezvous request inside the tunnel unanswered: %v", desc, err)
+			}
+			if res, err := m.Result(); err == nil && string(res.Diag) == "waited-in-vain" {
+				return lab.Failf("tunnel-not-concurrent", "%s: two requests were pipelined inside the tunnel; the first handler waited 4 s for the second to be dispatched - in vain: requests inside the tunnel are not dispatched concurrently as they are on a plain connection", desc)
+			}
+		}
+	}
 	cl.Close()
 	time.Sleep(2 * time.Millisecond)
 	c2s, s2c := tap.Captured()
@@ -415,7 +459,7 @@ func TestC13(t *testing.T) {
 	delays := []int{0, 0, 1, 5, 20, 50}
 	lab.Prop[c13Case]{
 		ID: "C13", Part: "starttls",
-		Rule: "rapid: 1..16 parallel sessions through a recording wiretap proxy; the StartTLS handler sleeps d1, writes success, sleeps d2 (0..50 ms, occasionally up to 600 ms; the client's ClientHello is already on the wire), calls Request.StartTLS, sleeps d3; the session may then stay idle for 0.3..2.5 s; then 1..40 generated requests of all operations (controls, binary values) inside the tunnel, sequentially or pipelined in one write; the server's logger is at Error or Debug level; handlers of the plaintext requests before the StartTLS may linger after answering; conforming clients = raw independent client and go-ldap StartTLS; one raw session in five also pipelines a complete plaintext request behind its StartTLS request in the same write (it must never be dispatched or answered, neither before nor inside the tunnel); oracle = handshake succeeds for every timing, every tunnel request is decoded (field-by-field as C01), numbered in continuation of the connection's Request.IDs and answered once, and every captured byte after the StartTLS exchange is a TLS record in both directions; non-trivial = d2 > 0 and >= 2 concurrent requests after the upgrade; distinct by hash of the session",
+		Rule: "rapid: 1..16 parallel sessions through a recording wiretap proxy; the StartTLS handler sleeps d1, writes success, sleeps d2 (0..50 ms, occasionally up to 600 ms; the client's ClientHello is already on the wire), calls Request.StartTLS, sleeps d3; the session may then stay idle for 0.3..2.5 s; then 1..40 generated requests of all operations (controls, binary values) inside the tunnel, sequentially or pipelined in one write; the server's logger is at Error or Debug level; handlers of the plaintext requests before the StartTLS may linger after answering; conforming clients = raw independent client and go-ldap StartTLS; one raw session in five also pipelines a complete plaintext request behind its StartTLS request in the same write (it must never be dispatched or answered, neither before nor inside the tunnel); oracle = handshake succeeds for every timing, every tunnel request is decoded (field-by-field as C01), numbered in continuation of the connection's Request.IDs and answered once, pipelined sessions end with a rendezvous (two extended requests in one write: the first of the two handlers waits for the second to be entered: dispatch inside the tunnel is concurrent), and every captured byte after the StartTLS exchange is a TLS record in both directions; non-trivial = d2 > 0 and >= 2 concurrent requests after the upgrade; distinct by hash of the session",
 		Gen: func(t *rapid.T) c13Case {
 			var c c13Case
 			c.Debug = rapid.IntRange(0, 3).Draw(t, "debuglog") == 0
